@@ -178,7 +178,9 @@ def judge(case, records, app):
             P(tagin, t, "input-rail-calls-differ", {"got": got_in, "expected": mt["exp_in"]})
         if mt["in_blocked"] is not None:
             had_block = True
-            if ver == "v1" and mt["text"] != rec["text"]:
+            if ver == "v1" and mt["text"] != rec["text"] and mode != "passthrough":
+                # (passthrough: the rewrite is only written into the caller's message when the turn reaches generation; the
+                #  caller's own copy of a REJECTED message is the caller's business)
                 # rewritten by one rail, then rejected by a later one: later stages (the prompts of later turns) still
                 # must only see the rewritten text
                 rewritten_tokens.append(orig_token)
@@ -210,7 +212,9 @@ def judge(case, records, app):
                 rewritten_tokens.append(orig_token)
             # (only when every call uses default options: per-call options change the history-cache key, the
             #  history is then rebuilt from the caller's own raw messages, which legitimately carry earlier originals)
-            if mode in ("dialog", "general", "single_call", "multi_step") and not case.get("opts") and case.get("api", "messages") == "messages":
+            # (passthrough builds its prompt from the caller's own message dicts: the clause applies there because the driver,
+            #  like an in-process caller, keeps resending the very same dict objects, which the rewrite is written into)
+            if mode in ("dialog", "general", "single_call", "multi_step", "passthrough") and not case.get("opts") and case.get("api", "messages") == "messages":
                 for tok in rewritten_tokens:
                     if tok == orig_token:
                         continue
